@@ -1,8 +1,17 @@
 /-
   The budget-prefix law (C04, C07, C18): what a consumer that pulls `k` errors and then closes
   the iterator sees is exactly the first `k` errors of the exhaustive run.
-  `Lawful` is closed under the generator combinators, hence holds of the whole evaluator
-  (JS.Proofs.Framework).
+
+  FINDING.  `Lawful` as defined below is NOT closed under the combinators in the sense of
+  `JS.Closed` (JS.Proofs.Framework): `Closed.stop` asks for `P (stopG s)` for *every* `s : Stop`,
+  and `Lawful (stopG .budget)` is false (field `nobudget`; see `not_lawful_stopG_budget` and
+  `lawfulClosed_counterexample`).  The model never builds `stopG .budget`, and `Lawful` is closed
+  under every combinator as soon as `stopG` is restricted to `s ≠ .budget`
+  (`lawfulClosed_partial`), but `P_eval` cannot be instantiated with `Lawful`.
+
+  What is closed under all combinators is `Lawful` without its field `nobudget`: `PrefixLaw`
+  (fields `short` and `long`).  It holds of the whole evaluator (`prefixLaw_eval`) and is all that
+  C04 needs.  `Lawful g ↔ NoBudget g ∧ PrefixLaw g` (`lawful_iff`).
 -/
 import JS.Proofs.Framework
 namespace JS
@@ -18,7 +27,416 @@ structure Lawful (g : Gen) : Prop where
   long : ∀ st k, 0 < k → k ≤ (g none st).errs.length →
       (g (some k) st).errs = (g none st).errs.take k ∧ (g (some k) st).stop = .budget
 
--- TO PROVE (proof development): `theorem lawfulClosed (env : Env) : Closed env Lawful`
--- and `theorem lawful_eval (env impl cfg fuel) : ∀ i s, Lawful (eval env impl cfg fuel i s)`.
+/-- `Lawful` without `nobudget`: the part that is closed under all combinators -/
+structure PrefixLaw (g : Gen) : Prop where
+  short : ∀ st k, (g none st).errs.length < k → g (some k) st = g none st
+  long : ∀ st k, 0 < k → k ≤ (g none st).errs.length →
+      (g (some k) st).errs = (g none st).errs.take k ∧ (g (some k) st).stop = .budget
+
+/-- the field `nobudget` of `Lawful` on its own -/
+structure NoBudget (g : Gen) : Prop where
+  nobudget : ∀ st, (g none st).stop ≠ .budget
+
+theorem lawful_iff {g : Gen} : Lawful g ↔ NoBudget g ∧ PrefixLaw g :=
+  ⟨fun h => ⟨⟨h.nobudget⟩, ⟨h.short, h.long⟩⟩, fun h => ⟨h.1.nobudget, h.2.short, h.2.long⟩⟩
+
+theorem Lawful.prefixLaw {g : Gen} (h : Lawful g) : PrefixLaw g := (lawful_iff.1 h).2
+
+/-! ### equations for the combinators -/
+
+theorem andThen_done {g h : Gen} {b : Option Nat} {st st' : RState} {es : List Err}
+    (heq : g b st = ⟨es, .done, st'⟩) :
+    andThen g h b st =
+      ⟨es ++ (h (budgetSub b es.length) st').errs, (h (budgetSub b es.length) st').stop,
+        (h (budgetSub b es.length) st').st⟩ := by
+  unfold andThen
+  rw [heq]
+
+theorem andThen_notDone {g h : Gen} {b : Option Nat} {st : RState}
+    (hne : (g b st).stop ≠ .done) : andThen g h b st = g b st := by
+  unfold andThen
+  split
+  · rename_i heq
+    rw [heq] at hne
+    exact absurd rfl hne
+  · rfl
+
+theorem mapErrs_eq (f : Err → Err) (g : Gen) (b : Option Nat) (st : RState) :
+    mapErrs f g b st = ⟨(g b st).errs.map f, (g b st).stop, (g b st).st⟩ := rfl
+
+theorem withScope_none {env : Env} {scope : Str} {g : Gen} {b : Option Nat} {st : RState}
+    (hu : env.urljoin st.top scope = none) :
+    withScope env scope g b st = ⟨[], .miss (.urljoin st.top scope), st⟩ := by
+  unfold withScope
+  rw [hu]
+
+theorem withScope_some {env : Env} {scope : Str} {g : Gen} {b : Option Nat} {st : RState} {u : Str}
+    (hu : env.urljoin st.top scope = some u) :
+    withScope env scope g b st =
+      ⟨(g b { st with scopes := u :: st.scopes }).errs,
+       (g b { st with scopes := u :: st.scopes }).stop,
+       { (g b { st with scopes := u :: st.scopes }).st with
+          scopes := (g b { st with scopes := u :: st.scopes }).st.scopes.tail }⟩ := by
+  unfold withScope
+  rw [hu]
+
+/-- at every state, `g` behaves (for every budget) like a generator satisfying the law, started
+    in some state that does not depend on the budget -/
+theorem PrefixLaw.of_pointwise {g : Gen}
+    (h : ∀ st, ∃ (g' : Gen) (st' : RState), PrefixLaw g' ∧ ∀ b, g b st = g' b st') :
+    PrefixLaw g := by
+  refine ⟨fun st k hk => ?_, fun st k h0 hk => ?_⟩
+  · obtain ⟨g', st', hl, he⟩ := h st
+    rw [he none] at hk
+    rw [he none, he (some k)]
+    exact hl.short st' k hk
+  · obtain ⟨g', st', hl, he⟩ := h st
+    rw [he none] at hk
+    rw [he none, he (some k)]
+    exact hl.long st' k h0 hk
+
+theorem NoBudget.of_pointwise {g : Gen}
+    (h : ∀ st, ∃ (g' : Gen) (st' : RState), NoBudget g' ∧ ∀ b, g b st = g' b st') :
+    NoBudget g := by
+  refine ⟨fun st => ?_⟩
+  obtain ⟨g', st', hl, he⟩ := h st
+  rw [he none]
+  exact hl.nobudget st'
+
+/-! ### `PrefixLaw` is closed under every combinator -/
+
+theorem prefixLaw_emit (es : List Err) : PrefixLaw (emit es) := by
+  refine ⟨fun st k hk => ?_, fun st k h0 hk => ?_⟩
+  · simp only [emit] at hk ⊢
+    rw [if_pos hk]
+  · simp only [emit] at hk ⊢
+    rw [if_neg (by omega)]
+    exact ⟨rfl, rfl⟩
+
+theorem prefixLaw_stopG (s : Stop) : PrefixLaw (stopG s) := by
+  refine ⟨fun st k _ => rfl, fun st k h0 hk => ?_⟩
+  simp only [stopG, List.length_nil] at hk
+  omega
+
+theorem prefixLaw_andThen {g h : Gen} (hg : PrefixLaw g) (hh : PrefixLaw h) :
+    PrefixLaw (andThen g h) := by
+  refine ⟨fun st k hk => ?_, fun st k h0 hk => ?_⟩
+  · rcases hgn : g none st with ⟨es, s, st'⟩
+    by_cases hs : s = .done
+    · subst hs
+      have hb : budgetSub (some k) es.length = some (k - es.length) := rfl
+      have hb' : budgetSub none es.length = none := rfl
+      rw [andThen_done hgn, hb'] at hk ⊢
+      simp only [List.length_append] at hk
+      have hgk : g (some k) st = ⟨es, .done, st'⟩ := by
+        rw [hg.short st k (by rw [hgn]; dsimp only; omega), hgn]
+      rw [andThen_done hgk, hb]
+      rw [hh.short st' (k - es.length) (by omega)]
+    · have hne : (g none st).stop ≠ .done := by rw [hgn]; exact hs
+      rw [andThen_notDone hne] at hk ⊢
+      have hgk := hg.short st k hk
+      rw [andThen_notDone (by rw [hgk]; exact hne)]
+      exact hgk
+  · rcases hgn : g none st with ⟨es, s, st'⟩
+    by_cases hs : s = .done
+    · subst hs
+      rw [andThen_done hgn] at hk ⊢
+      have hb' : budgetSub none es.length = none := rfl
+      rw [hb'] at hk ⊢
+      simp only [List.length_append] at hk
+      dsimp only
+      by_cases hle : k ≤ es.length
+      · obtain ⟨h1, h2⟩ := hg.long st k h0 (by rw [hgn]; exact hle)
+        rw [andThen_notDone (by rw [h2]; nofun)]
+        refine ⟨?_, h2⟩
+        rw [h1, hgn]
+        dsimp only
+        rw [List.take_append_of_le_length hle]
+      · have hgk : g (some k) st = ⟨es, .done, st'⟩ := by
+          rw [hg.short st k (by rw [hgn]; dsimp only; omega), hgn]
+        rw [andThen_done hgk]
+        have hb : budgetSub (some k) es.length = some (k - es.length) := rfl
+        rw [hb]
+        dsimp only
+        obtain ⟨h1, h2⟩ := hh.long st' (k - es.length) (by omega) (by omega)
+        refine ⟨?_, h2⟩
+        rw [h1, List.take_append, List.take_of_length_le (l := es) (i := k) (by omega)]
+    · have hne : (g none st).stop ≠ .done := by rw [hgn]; exact hs
+      rw [andThen_notDone hne] at hk ⊢
+      obtain ⟨h1, h2⟩ := hg.long st k h0 hk
+      rw [andThen_notDone (by rw [h2]; nofun)]
+      exact ⟨h1, h2⟩
+
+theorem prefixLaw_mapErrs (f : Err → Err) {g : Gen} (hg : PrefixLaw g) :
+    PrefixLaw (mapErrs f g) := by
+  refine ⟨fun st k hk => ?_, fun st k h0 hk => ?_⟩
+  · rw [mapErrs_eq] at hk
+    simp only [List.length_map] at hk
+    rw [mapErrs_eq, mapErrs_eq, hg.short st k hk]
+  · rw [mapErrs_eq] at hk
+    simp only [List.length_map] at hk
+    obtain ⟨h1, h2⟩ := hg.long st k h0 hk
+    rw [mapErrs_eq, mapErrs_eq]
+    dsimp only
+    rw [h1, h2, List.map_take]
+    exact ⟨rfl, rfl⟩
+
+/-- `inner` runs `g` with its own budget: nothing is needed of `g` -/
+theorem prefixLaw_inner {g : Gen} (b' : Option Nat) (k : List Err → Gen)
+    (hk : ∀ es, PrefixLaw (k es)) : PrefixLaw (inner g b' k) := by
+  apply PrefixLaw.of_pointwise
+  intro st
+  rcases hg : g b' st with ⟨es, s, st'⟩
+  cases s with
+  | done => exact ⟨k es, st', hk es, fun b => by unfold inner; rw [hg]⟩
+  | budget => exact ⟨k es, st', hk es, fun b => by unfold inner; rw [hg]⟩
+  | raised e => exact ⟨stopG (.raised e), st', prefixLaw_stopG _, fun b => by unfold inner; rw [hg]; rfl⟩
+  | fuel => exact ⟨stopG .fuel, st', prefixLaw_stopG _, fun b => by unfold inner; rw [hg]; rfl⟩
+  | miss q => exact ⟨stopG (.miss q), st', prefixLaw_stopG _, fun b => by unfold inner; rw [hg]; rfl⟩
+
+theorem prefixLaw_withScope (env : Env) (scope : Str) {g : Gen} (hg : PrefixLaw g) :
+    PrefixLaw (withScope env scope g) := by
+  refine ⟨fun st k hk => ?_, fun st k h0 hk => ?_⟩
+  · cases hu : env.urljoin st.top scope with
+    | none => rw [withScope_none hu, withScope_none hu]
+    | some u =>
+      rw [withScope_some hu] at hk ⊢
+      dsimp only at hk
+      rw [withScope_some hu, hg.short _ k hk]
+  · cases hu : env.urljoin st.top scope with
+    | none =>
+      rw [withScope_none hu] at hk
+      simp only [List.length_nil] at hk
+      omega
+    | some u =>
+      rw [withScope_some hu] at hk ⊢
+      dsimp only at hk ⊢
+      rw [withScope_some hu]
+      exact hg.long _ k h0 hk
+
+theorem prefixLaw_kwRef (env : Env) {rec : Rec} (hrec : ∀ i s, PrefixLaw (rec i s))
+    (ref inst : Json) : PrefixLaw (kwRef env rec ref inst) := by
+  apply PrefixLaw.of_pointwise
+  intro st
+  cases ref with
+  | str r =>
+    rcases hr : resolve env r st with ⟨res, st1⟩
+    cases res with
+    | ok p =>
+      obtain ⟨url, target⟩ := p
+      exact ⟨withScope env url (rec inst target), st1, prefixLaw_withScope env url (hrec inst target),
+        fun b => by unfold kwRef; simp only [hr]⟩
+    | raise e =>
+      exact ⟨stopG (.raised e), st1, prefixLaw_stopG _, fun b => by unfold kwRef; simp only [hr]; rfl⟩
+    | miss q =>
+      exact ⟨stopG (.miss q), st1, prefixLaw_stopG _, fun b => by unfold kwRef; simp only [hr]; rfl⟩
+  | null => exact ⟨stopG (.raised (.crash "TypeError")), st, prefixLaw_stopG _, fun b => rfl⟩
+  | bool _ => exact ⟨stopG (.raised (.crash "TypeError")), st, prefixLaw_stopG _, fun b => rfl⟩
+  | num _ => exact ⟨stopG (.raised (.crash "TypeError")), st, prefixLaw_stopG _, fun b => rfl⟩
+  | arr _ => exact ⟨stopG (.raised (.crash "TypeError")), st, prefixLaw_stopG _, fun b => rfl⟩
+  | obj _ => exact ⟨stopG (.raised (.crash "TypeError")), st, prefixLaw_stopG _, fun b => rfl⟩
+
+theorem prefixLawClosed (env : Env) : Closed env PrefixLaw where
+  emit := prefixLaw_emit
+  stop := prefixLaw_stopG
+  andThen := prefixLaw_andThen
+  mapErrs := prefixLaw_mapErrs
+  inner := fun b' k _ hk => prefixLaw_inner b' k hk
+  withScope := prefixLaw_withScope env
+  kwRef := fun hrec ref inst => prefixLaw_kwRef env hrec ref inst
+
+/-- the budget-prefix law (`short` and `long`) for the whole evaluator, every fuel -/
+theorem prefixLaw_eval (env : Env) (impl : FmtImpl) (cfg : Cfg) (fuel : Nat) :
+    ∀ i s, PrefixLaw (eval env impl cfg fuel i s) :=
+  P_eval (prefixLawClosed env) impl cfg fuel
+
+/-! ### `nobudget`: closed under every combinator except `stopG .budget` -/
+
+theorem noBudget_emit (es : List Err) : NoBudget (emit es) := ⟨fun _ => nofun⟩
+
+theorem noBudget_stopG {s : Stop} (hs : s ≠ .budget) : NoBudget (stopG s) := ⟨fun _ => hs⟩
+
+theorem noBudget_andThen {g h : Gen} (hg : NoBudget g) (hh : NoBudget h) :
+    NoBudget (andThen g h) := by
+  refine ⟨fun st => ?_⟩
+  rcases hgn : g none st with ⟨es, s, st'⟩
+  by_cases hs : s = .done
+  · subst hs
+    rw [andThen_done hgn]
+    exact hh.nobudget st'
+  · have hne : (g none st).stop ≠ .done := by rw [hgn]; exact hs
+    rw [andThen_notDone hne]
+    exact hg.nobudget st
+
+theorem noBudget_mapErrs (f : Err → Err) {g : Gen} (hg : NoBudget g) : NoBudget (mapErrs f g) :=
+  ⟨fun st => hg.nobudget st⟩
+
+theorem noBudget_inner {g : Gen} (b' : Option Nat) (k : List Err → Gen)
+    (hk : ∀ es, NoBudget (k es)) : NoBudget (inner g b' k) := by
+  apply NoBudget.of_pointwise
+  intro st
+  rcases hg : g b' st with ⟨es, s, st'⟩
+  cases s with
+  | done => exact ⟨k es, st', hk es, fun b => by unfold inner; rw [hg]⟩
+  | budget => exact ⟨k es, st', hk es, fun b => by unfold inner; rw [hg]⟩
+  | raised e => exact ⟨stopG (.raised e), st', noBudget_stopG nofun, fun b => by unfold inner; rw [hg]; rfl⟩
+  | fuel => exact ⟨stopG .fuel, st', noBudget_stopG nofun, fun b => by unfold inner; rw [hg]; rfl⟩
+  | miss q => exact ⟨stopG (.miss q), st', noBudget_stopG nofun, fun b => by unfold inner; rw [hg]; rfl⟩
+
+theorem noBudget_withScope (env : Env) (scope : Str) {g : Gen} (hg : NoBudget g) :
+    NoBudget (withScope env scope g) := by
+  refine ⟨fun st => ?_⟩
+  cases hu : env.urljoin st.top scope with
+  | none => rw [withScope_none hu]; nofun
+  | some u => rw [withScope_some hu]; exact hg.nobudget _
+
+theorem noBudget_kwRef (env : Env) {rec : Rec} (hrec : ∀ i s, NoBudget (rec i s))
+    (ref inst : Json) : NoBudget (kwRef env rec ref inst) := by
+  apply NoBudget.of_pointwise
+  intro st
+  cases ref with
+  | str r =>
+    rcases hr : resolve env r st with ⟨res, st1⟩
+    cases res with
+    | ok p =>
+      obtain ⟨url, target⟩ := p
+      exact ⟨withScope env url (rec inst target), st1, noBudget_withScope env url (hrec inst target),
+        fun b => by unfold kwRef; simp only [hr]⟩
+    | raise e =>
+      exact ⟨stopG (.raised e), st1, noBudget_stopG nofun, fun b => by unfold kwRef; simp only [hr]; rfl⟩
+    | miss q =>
+      exact ⟨stopG (.miss q), st1, noBudget_stopG nofun, fun b => by unfold kwRef; simp only [hr]; rfl⟩
+  | null => exact ⟨stopG (.raised (.crash "TypeError")), st, noBudget_stopG nofun, fun b => rfl⟩
+  | bool _ => exact ⟨stopG (.raised (.crash "TypeError")), st, noBudget_stopG nofun, fun b => rfl⟩
+  | num _ => exact ⟨stopG (.raised (.crash "TypeError")), st, noBudget_stopG nofun, fun b => rfl⟩
+  | arr _ => exact ⟨stopG (.raised (.crash "TypeError")), st, noBudget_stopG nofun, fun b => rfl⟩
+  | obj _ => exact ⟨stopG (.raised (.crash "TypeError")), st, noBudget_stopG nofun, fun b => rfl⟩
+
+/-! ### `Lawful`: one lemma per combinator, and the one that fails -/
+
+theorem lawful_emit (es : List Err) : Lawful (emit es) :=
+  lawful_iff.2 ⟨noBudget_emit es, prefixLaw_emit es⟩
+
+theorem lawful_stopG {s : Stop} (hs : s ≠ .budget) : Lawful (stopG s) :=
+  lawful_iff.2 ⟨noBudget_stopG hs, prefixLaw_stopG s⟩
+
+theorem lawful_andThen {g h : Gen} (hg : Lawful g) (hh : Lawful h) : Lawful (andThen g h) :=
+  lawful_iff.2 ⟨noBudget_andThen (lawful_iff.1 hg).1 (lawful_iff.1 hh).1,
+    prefixLaw_andThen hg.prefixLaw hh.prefixLaw⟩
+
+theorem lawful_mapErrs (f : Err → Err) {g : Gen} (hg : Lawful g) : Lawful (mapErrs f g) :=
+  lawful_iff.2 ⟨noBudget_mapErrs f (lawful_iff.1 hg).1, prefixLaw_mapErrs f hg.prefixLaw⟩
+
+theorem lawful_inner {g : Gen} (b' : Option Nat) (k : List Err → Gen)
+    (hk : ∀ es, Lawful (k es)) : Lawful (inner g b' k) :=
+  lawful_iff.2 ⟨noBudget_inner b' k (fun es => (lawful_iff.1 (hk es)).1),
+    prefixLaw_inner b' k (fun es => (hk es).prefixLaw)⟩
+
+theorem lawful_withScope (env : Env) (scope : Str) {g : Gen} (hg : Lawful g) :
+    Lawful (withScope env scope g) :=
+  lawful_iff.2 ⟨noBudget_withScope env scope (lawful_iff.1 hg).1,
+    prefixLaw_withScope env scope hg.prefixLaw⟩
+
+theorem lawful_kwRef (env : Env) {rec : Rec} (hrec : ∀ i s, Lawful (rec i s))
+    (ref inst : Json) : Lawful (kwRef env rec ref inst) :=
+  lawful_iff.2 ⟨noBudget_kwRef env (fun i s => (lawful_iff.1 (hrec i s)).1) ref inst,
+    prefixLaw_kwRef env (fun i s => (hrec i s).prefixLaw) ref inst⟩
+
+/-- the statement that was to be proved; it is false (`lawfulClosed_counterexample`) -/
+def lawfulClosed_statement (env : Env) : Prop := Closed env Lawful
+
+/-- `stopG .budget` violates `nobudget`: its exhaustive run stops with `.budget` -/
+theorem not_lawful_stopG_budget : ¬ Lawful (stopG .budget) :=
+  fun h => h.nobudget default rfl
+
+/-- `Lawful` is not `Closed`: `Closed.stop` demands `Lawful (stopG .budget)` -/
+theorem lawfulClosed_counterexample (env : Env) : ¬ lawfulClosed_statement env :=
+  fun H => not_lawful_stopG_budget (H.stop .budget)
+
+/-- `Lawful` is closed under every combinator once `stopG` is restricted to `s ≠ .budget`
+    (the model only uses `stopG` with `.fuel`, `.raised _` and `.miss _`) -/
+theorem lawfulClosed_partial (env : Env) :
+    (∀ es, Lawful (emit es))
+    ∧ (∀ s, s ≠ .budget → Lawful (stopG s))
+    ∧ (∀ {g h : Gen}, Lawful g → Lawful h → Lawful (andThen g h))
+    ∧ (∀ (f : Err → Err) {g : Gen}, Lawful g → Lawful (mapErrs f g))
+    ∧ (∀ {g : Gen} (b' : Option Nat) (k : List Err → Gen), Lawful g → (∀ es, Lawful (k es)) →
+        Lawful (inner g b' k))
+    ∧ (∀ (scope : Str) {g : Gen}, Lawful g → Lawful (withScope env scope g))
+    ∧ (∀ {rec : Rec}, (∀ i s, Lawful (rec i s)) → ∀ ref inst, Lawful (kwRef env rec ref inst)) :=
+  ⟨lawful_emit, fun _ hs => lawful_stopG hs, lawful_andThen, lawful_mapErrs,
+   fun b' k _ hk => lawful_inner b' k hk, lawful_withScope env,
+   fun hrec ref inst => lawful_kwRef env hrec ref inst⟩
+
+/-- `Lawful` for the evaluator, given the one fact the framework cannot deliver -/
+theorem lawful_eval_partial (env : Env) (impl : FmtImpl) (cfg : Cfg) (fuel : Nat)
+    (hnb : ∀ i s, NoBudget (eval env impl cfg fuel i s)) :
+    ∀ i s, Lawful (eval env impl cfg fuel i s) :=
+  fun i s => lawful_iff.2 ⟨hnb i s, prefixLaw_eval env impl cfg fuel i s⟩
+
+/-! ### consequences for the entry points (C04) -/
+
+theorem PrefixLaw.isValid_spec {g : Gen} (L : PrefixLaw g) (st : RState) :
+    (isValid g st).1 =
+      match (g none st).errs, (g none st).stop with
+      | [], .done => .ok true
+      | [], .raised e => .raise e
+      | [], s => .other s
+      | _ :: _, _ => .ok false := by
+  rcases hn : g none st with ⟨es, s, st'⟩
+  cases es with
+  | nil =>
+    have h1 := L.short st 1 (by rw [hn]; exact Nat.zero_lt_one)
+    unfold isValid
+    rw [h1, hn]
+    cases s <;> rfl
+  | cons e es =>
+    obtain ⟨h1, _⟩ := L.long st 1 Nat.zero_lt_one (by rw [hn]; simp)
+    rw [hn] at h1
+    unfold isValid
+    rcases h1k : g (some 1) st with ⟨es1, s1, st1⟩
+    rw [h1k] at h1
+    simp only [List.take_succ_cons, List.take_zero] at h1
+    subst h1
+    rfl
+
+theorem PrefixLaw.validate_spec {g : Gen} (L : PrefixLaw g) (st : RState) :
+    (validateM g st).1 =
+      match (g none st).errs, (g none st).stop with
+      | [], .done => .ok ()
+      | [], .raised e => .raise e
+      | [], s => .other s
+      | e :: _, _ => .invalid e := by
+  rcases hn : g none st with ⟨es, s, st'⟩
+  cases es with
+  | nil =>
+    have h1 := L.short st 1 (by rw [hn]; exact Nat.zero_lt_one)
+    unfold validateM
+    rw [h1, hn]
+    cases s <;> rfl
+  | cons e es =>
+    obtain ⟨h1, _⟩ := L.long st 1 Nat.zero_lt_one (by rw [hn]; simp)
+    rw [hn] at h1
+    unfold validateM
+    rcases h1k : g (some 1) st with ⟨es1, s1, st1⟩
+    rw [h1k] at h1
+    simp only [List.take_succ_cons, List.take_zero] at h1
+    subst h1
+    rfl
+
+theorem PrefixLaw.take_prefix {g : Gen} (L : PrefixLaw g) (st : RState) (k : Nat) (hk : 0 < k) :
+    (g (some k) st).errs = (g none st).errs.take k := by
+  by_cases h : k ≤ (g none st).errs.length
+  · exact (L.long st k hk h).1
+  · rw [L.short st k (by omega), List.take_of_length_le (by omega)]
+
+theorem PrefixLaw.entry_points_agree {g : Gen} (L : PrefixLaw g) (st : RState)
+    (hdone : (g none st).stop = .done) :
+    ((isValid g st).1 = .ok true ↔ (g none st).errs = [])
+    ∧ ((validateM g st).1 = .ok () ↔ (g none st).errs = []) := by
+  rw [L.isValid_spec st, L.validate_spec st, hdone]
+  cases (g none st).errs with
+  | nil => exact ⟨⟨fun _ => rfl, fun _ => rfl⟩, ⟨fun _ => rfl, fun _ => rfl⟩⟩
+  | cons e es => exact ⟨⟨nofun, nofun⟩, ⟨nofun, nofun⟩⟩
 
 end JS
